@@ -38,12 +38,13 @@ impl<'a> Reader<'a> {
 }
 
 pub fn motif(r: &mut Reader) -> Motif {
-    match r.below(13) {
+    match r.below(14) {
         0 => Motif::None,
+        12 => Motif::CastleMate { black: r.bool(), long: r.bool(), variant: r.below(4) },
         11 => Motif::CastleOnly { black: r.bool(), long: r.bool(), cover_queen: r.bool(), cover_dist: r.below(4), drop: r.below(4) },
         10 => Motif::EpStalemate { black: r.bool(), file: r.below(6), capturer_right: r.bool(), dir: r.below(4), dk: r.below(4), ds: r.below(4), with_slider: r.below(4) != 0, queen: r.bool() },
         1 => {
-            let (black, kf, short_sel, long_sel) = (r.bool(), r.below(6), r.u8(), r.u8());
+            let (black, kf, short_sel, long_sel) = (r.bool(), r.below(8), r.u8(), r.u8());
             let attackers = (0..r.below(4)).map(|_| (r.u8(), r.below(8), r.below(7), r.u8())).collect();
             let blockers = (0..r.below(3)).map(|_| (r.below(8), r.u8(), r.bool())).collect();
             Motif::Castle { black, kf, short_sel, long_sel, attackers, blockers }
